@@ -440,7 +440,7 @@ func checkC08(c *Ctx) error {
 				if zi == 0 {
 					first = obs
 					if res.Exit != 0 {
-						c.Violate("stamped-build-rejects-valid-config", "a stamped build rejects a valid configuration:\n"+res.Stdout, map[string]string{"ldflags.txt": st})
+						c.Side("C11,C18", "stamped-build-rejects-valid-config", "a stamped build rejects a valid configuration:\n"+res.Stdout, map[string]string{"ldflags.txt": st})
 						break
 					}
 					continue
@@ -513,7 +513,7 @@ func checkC08(c *Ctx) error {
 			res := work.Run(w.Bin, dir, w.SaneEnv(), 120*time.Second, nil, "build", "-i", "in.yaml", "-o", "out.go")
 			b, _ := os.ReadFile(filepath.Join(dir, "out.go"))
 			if res.Exit != 0 {
-				c.Violate("valid-config-rejected:"+sigWords(res.Stdout[max(0, len(res.Stdout)-200):]), "a valid configuration of the determinism workload was rejected:\n"+res.Stdout, map[string]string{"input/in.yaml": yaml})
+				c.Side("C11", "valid-config-rejected:"+sigWords(res.Stdout[max(0, len(res.Stdout)-200):]), "a valid configuration of the determinism workload was rejected:\n"+res.Stdout, map[string]string{"input/in.yaml": yaml})
 				return
 			}
 			if p == 0 {
